@@ -238,6 +238,18 @@ def run_c09(ctx, fa):
         c = union_case(fa, "u%d" % len(cases), raw, d, tuples, badhint)
         c["nodes"] = gen.count_nodes(ir)
         cases.append(c)
+    # directed: a fixed decimal defined once and referred to by name from a union (a Decimal conforms to the reference as to the definition)
+    import decimal as _dec
+    for i in range(16 if ctx.quick() else 160):
+        money = {"type": "fixed", "name": "Money", "size": 8, "logicalType": "decimal", "precision": 12, "scale": 2}
+        later = rnd.choice([[], [{"type": "bytes", "logicalType": "decimal", "precision": 20, "scale": 2}], ["string"]])
+        raw = {"type": "record", "name": "Acct", "fields": [{"name": "first", "type": money},
+                                                            {"name": "u", "type": (["null"] if rnd.random() < 0.6 else []) + ["Money"] + later}]}
+        val = _dec.Decimal(rnd.randint(-10 ** 9, 10 ** 9)).scaleb(-2)
+        d = {"first": _dec.Decimal("1.25"), "u": val if rnd.random() < 0.8 else ("Money", val)}
+        c = union_case(fa, "u%d" % len(cases), raw, d, True, False)
+        c["nodes"] = 4
+        cases.append(c)
     ctx.rule = ("seeded schemas containing unions (primitive mixes incl. float/double orders, several records/enums/fixed, by-name references, "
                 "arrays/maps, logical types, any nesting depth) x conforming data with tuple hints, '-type' hints or none, x disable_tuple_notation, "
                 "plus hints naming no branch; the union indices in the bytes are compared with AvroValue!ChooseBranch; values read with "
